@@ -28,6 +28,14 @@ CLAIMS = {
             "with the cursor's clause as reason; try_add_decision separates new/same/opposite. Soundness of first-UIP itself and the "
             "watch invariants under undo are not decided.",
             "DESIGN.md section 4 C02"),
+    "C05": ("who-may-call census of positive literals and constant-true decisions, guard dominance in decide(), loop-exit analysis of undo (MIR)",
+            "Decides the mechanisms the anchors name as complete censuses over the resolved program: the only creators of positive "
+            "literals are Requires clauses (candidates) and at-most-one helper variables; the only constant-true decisions are the "
+            "root/soft solvable and decide()'s choice; decide() expands requirements only behind assigned_value(parent)==Some(true) "
+            "and proposes only unassigned candidates; undo_until leaves its loop only at level<=target or on an empty trail, and "
+            "undo_last pops and resets the same variable on every path. A new way to make a solvable true, or an undo that leaves "
+            "state behind, is reported whatever input would expose it. The support property of returned sets is not decided.",
+            "DESIGN.md section 4 C05"),
     "C06": ("order-source census (T-ORD) over resolved callees and receiver types + expected-zero entropy census + type facts",
             "C06 is a good fit for static analysis: nondeterminism must enter through an identifiable source. The check enumerates "
             "every order-revealing operation on a hash-ordered container (any hasher; resolved by rustc), requires each to be a "
